@@ -44,6 +44,71 @@ def flag_fresh(v, o):
     mf.ob("flag_dump_fresh", "v: int, o: bool", "return flag_fresh(v, o)", pre=["0 <= v < 8"], timeout=120, family="flag by member names: dumped lists are fresh",
           bounds="all 8 flag values, allow_compound both ways, 3 debug modes")
     mods.append(mf)
+    md = Module("c20_defaults").pre('''
+import dataclasses, attr
+from typing import NamedTuple, Any, List, Dict
+from adaptix import Retort, name_mapping
+D_XS, D_YS, D_ZS, D_WS = [], {"k": [1]}, set(), [[0]]
+class DNt(NamedTuple):
+    a: int
+    xs: list = D_XS
+    ys: dict = D_YS
+    zs: set = D_ZS
+    ws: list = D_WS
+@attr.s(auto_attribs=True)
+class DAt:
+    a: int
+    xs: list = attr.ib(default=D_XS)
+    ys: dict = attr.ib(default=D_YS)
+    zs: set = attr.ib(default=D_ZS)
+    ws: list = attr.ib(default=D_WS)
+class DPl:
+    def __init__(self, a: int, xs: list = D_XS, ys: dict = D_YS, zs: set = D_ZS, ws: list = D_WS):
+        self.a, self.xs, self.ys, self.zs, self.ws = a, xs, ys, zs, ws
+@dataclasses.dataclass
+class DFa:
+    a: int
+    xs: list = dataclasses.field(default_factory=list)
+    ys: dict = dataclasses.field(default_factory=lambda: {"k": [1]})
+    zs: set = dataclasses.field(default_factory=set)
+    ws: list = dataclasses.field(default_factory=lambda: [[0]])
+DKINDS = (DNt, DAt, DPl, DFa)
+OWN = {"xs": D_XS, "ys": D_YS, "zs": D_ZS, "ws": D_WS}
+DLD = {(k, dt): Retort(debug_trail=dt).get_loader(K) for k, K in enumerate(DKINDS) for dt in DT_MODES}
+def inner_ids(v):
+    return {id(x) for x in (v.values() if isinstance(v, dict) else v) if isinstance(x, (list, dict, set))}
+def default_sharing(k, a, b, pxs, n):
+    """two loads that omit a field with a mutable default: each result holds a container equal to the default that is either the model's own default object
+    (what the constructor itself would use) or a new one -- never a third object shared between results / kept by the retort.  Factory defaults are always new."""
+    k = pick(k, len(DKINDS))
+    for dt in DT_MODES:
+        ld = DLD[(k, dt)]
+        d1, d2 = {"a": a}, {"a": b}
+        if pxs: d1["xs"] = [n]
+        o1, o2 = ld(d1), ld(d2)
+        for f, own in OWN.items():
+            v1, v2 = getattr(o1, f), getattr(o2, f)
+            if f == "xs" and pxs:
+                if v1 != [n] or v2 != []: return False
+                continue
+            if v1 != own or v2 != own or type(v1) is not type(own): return False
+            if k == 3:
+                if v1 is v2 or v1 is own or (inner_ids(v1) & inner_ids(v2)): return False
+            elif v1 is v2 and v1 is not own: return False
+            elif v1 is not own and (inner_ids(v1) & (inner_ids(v2) | inner_ids(own))) and v1 is not v2: return False
+        # editing one result does not change what the next load returns
+        if k == 3 or o1.ys is not D_YS:
+            o1.ys["new"] = 1; o1.ws.append(2)
+            o3 = ld({"a": a})
+            if o3.ys != {"k": [1]} or o3.ws != [[0]]: return False
+            o1.ys.pop("new"); o1.ws.pop()
+    return OWN == {"xs": [], "ys": {"k": [1]}, "zs": set(), "ws": [[0]]}
+''')
+    md.ob("mutable_defaults_sharing", "k: int, a: int, b: int, pxs: bool, n: int", "return default_sharing(k, a, b, pxs, n)", pre=["0 <= k < 4"], timeout=120,
+          family="omitted fields with mutable default values / factories: no container shared between results except the model's own default object",
+          bounds="NamedTuple / attrs / plain __init__ with list, dict, set and nested-list default VALUES, dataclass with the same default FACTORIES; two loads + a third after "
+                 "editing the first result; symbolic ints; 3 debug modes")
+    mods.append(md)
     from props.C13 import build as build_c13
     for m13 in build_c13(tier, seed).modules:
         m13.obs = [o for o in m13.obs if o.name in ("containers_fresh", "nested", "simple")]
